@@ -124,7 +124,12 @@ pub fn decode_build_case(t: &mut Tape, x: &mut Tape, max_n: usize, cap: Option<u
     // declarations and sparse edges: few conflicts in a big graph
     let large = max_n >= 24 && t.chance(1, 24);
     let n = if large {
-        65 + t.below(56)
+        // one large case in twelve is beyond 256 functions (counts that do not fit a byte)
+        if t.chance(1, 12) {
+            257 + t.below(44)
+        } else {
+            65 + t.below(56)
+        }
     } else if t.chance(1, 12) {
         9 + t.below(max_n.saturating_sub(8).max(1))
     } else {
@@ -1299,7 +1304,7 @@ impl BuildCheck {
             prop,
             max_n: if thorough { 40 } else { 32 },
             cap,
-            tape_lens: if thorough { [1300, 60] } else { [1100, 60] },
+            tape_lens: if thorough { [2400, 60] } else { [2000, 60] },
         }
     }
     pub fn decode(&self, tapes: &[Vec<u16>]) -> BuildCase {
